@@ -1,5 +1,7 @@
 import KitProofs.Props.C16
 import KitProofs.Props.C16Code
+import KitProofs.Props.C16CodeTee
 import KitProofs.Census
 #census KitProofs.Props.C16
 #census KitProofs.Props.C16Code
+#census KitProofs.Props.C16CodeTee
